@@ -6,6 +6,9 @@ root = os.path.dirname(os.path.dirname(os.path.abspath(__file__)))
 ids = [json.loads(l)['id'] for l in open(os.path.join(root, 'properties.jsonl'))]
 
 E1 = "E1 enum (cmd/vcheck + harness/rs + harness/refmodel)"
+E2 = "E2 hist (explicit-state search over operation histories, cmd/vcheck)"
+E3 = "E3 sched (engine/vsched + cmd/vinstr + cmd/vcheck/e3.go)"
+MIX = "E1 enum + E2 hist + E3 sched"
 CHECKS = {
  "C01": dict(engine=E1, sec="§6 C01", technique="bounded exhaustive enumeration of route tables x requests on the real routers; soundness oracle from an executable reference model",
    text="Exhaustive enumeration (explicit-state, depth-1 histories) of every route table over the stated template/header alphabets (1-2 routes quick, up to 3 thorough; both routers) times every request over the path/method/header alphabets; on each of the ~5*10^7 real dispatches in which a route function runs, every clause of the statement is evaluated against the reference model (method, template admits path, Consumes, Produces, conditions evaluated and true, selected route seen by filter and handler). Bounded guarantee: no unsound invocation exists within the alphabets.",
@@ -28,6 +31,27 @@ CHECKS = {
  "C18": dict(engine=E1, sec="§6 C18", technique="exhaustive differential enumeration: twin containers differing only in router",
    text="Every table of the common fragment (literal roots incl. nested, literal or {v} route tokens, literals with regex metacharacters) times every request is dispatched on a CurlyRouter and a RouterJSR311 twin; status, route, parameters and Allow set must agree.",
    note="Recorded finding F12 (non-canonical paths: Curly routes, JSR311 404) matched by a narrow signature."),
+ "C06": dict(engine=MIX, sec="§6 C06", technique="exhaustive enumeration of filter configurations and request sequences against a ten-line model; stateless exploration of all schedules of concurrent requests (preemption-bounded) with happens-before race detection",
+   text="E1: all 29k+ assignments of five filter behaviours to up to 2+2+2 filters x 5 request kinds, per-request event log (with the view each filter/handler has of the pair, attributes, context and writer) equal to the model. E2: every sequence of <= 3 (4) requests on one container. E3: 2 (3) concurrent requests on the instrumented real package under the controlled scheduler, yields at every filter entry/exit and handler, all schedules up to the preemption bound; supplementary free-running -race pass.",
+   note="Trusted: the ten-line chain model; E3 trusted base as for C12."),
+ "C08": dict(engine=E1, sec="§6 C08", technique="exhaustive enumeration of CORS configurations x near-miss origins x requests, paired with a filter-less twin",
+   text="Full product of allowed-domain lists, predicate, cookie/expose/max-age settings, filter position and router with origins derived from the entries by mutation operators (case, prefix, suffix, superstring, regex-dot, scheme, null, wildcard literals, absent) and 8 request shapes; any Access-Control-* header implies allowed(origin) (the statement's rule transcribed); Allow-Origin echoes the Origin once; credentials only if configured; otherwise the response equals the twin's in status, headers, body and event log.",
+   note="Fresh filter per request; history effects belong to C09/C19."),
+ "C09": dict(engine=MIX, sec="§6 C09", technique="exhaustive enumeration of preflights against the statement's grant rule; explicit-state search over preflight sequences; schedule exploration of concurrent preflights with HB race detection",
+   text="E1: configurations x (URL x origin x requested method x requested-header list) against the grant rule, routable methods measured on a twin; preflights run no later filter or handler; actual requests get each header exactly once. E2: every sequence of <= 3 (4) preflights on one filter equals a fresh filter's answer. E3: concurrent preflights through one filter value, all schedules within the bound, vector-clock race detection on the filter's fields.",
+   note="Method-name case is not decided by the statement: either answer accepted."),
+ "C11": dict(engine=E2, sec="§6 C11", technique="breadth-first explicit-state search over registration histories; differential oracle against a fresh container built from the abstract state",
+   text="BFS over histories of Add/Remove/Route/RemoveRoute/Handle (depth 4 quick, 5 thorough) on root paths that collide in every way the mux registration can; each successor is the history replayed on a fresh real container; in every reached state ~90 probes through ServeHTTP and Dispatch must equal a container built directly from the abstract content; no operation may panic.",
+   note="States merged on abstract content (plus probe signature when deviating). Duplicate roots / duplicate Handle patterns are outside the quantifier."),
+ "C12": dict(engine=E3, sec="§6 C12", technique="stateless model checking of the real code under a controlled scheduler (iterative preemption bounding), vector-clock race detection, porcupine linearizability against the sequentially replayed container",
+   text="Serving threads against mutating threads (Add, Remove, Route, RemoveRoute, a condition that panics under the read lock), both routers x both entry points; every schedule up to the bound: no HB race on any struct field / package variable of the package, no panic, no deadlock, history linearizable w.r.t. registration states that existed during each request. Supplementary: same bodies free-running under -race on the uninstrumented package.",
+   note="Sequential consistency at synchronisation granularity; field-granular race detection (element-level only in the sampled -race pass); shim RWMutex models writer preference."),
+ "C13": dict(engine=E3, sec="§6 C13", technique="stateless model checking under a controlled scheduler with an instrumenting ledger provider; blocked-in-provider detection by enabledness, not time",
+   text="All schedules (bound 2 quick / 3 thorough) of 2-3 concurrent requests of kinds {gzip, deflate, routing error, recovered panic, double Close, failing writer, gzip request body in chunks, corrupt gzip body} for providers bounded(0/1/2) and sync.Pool (hand-out owned by the explorer) through both entry points: ledger clean (exclusive use, released exactly once), no thread ever disabled inside a provider operation, no deadlock, every response decodes to its own payload.",
+   note="compress/* trusted; shim Pool over-approximates sync.Pool (any pooled object or a new one)."),
+ "C19": dict(engine=MIX, sec="§6 C19", technique="explicit-state search over request histories (differential vs fresh container, trace on/off); schedule exploration of concurrent request pairs with HB race detection",
+   text="E2: 5 configurations x 2 routers x 2 entry points x trace off/on: every sequence over an 11-request set of length <= 3 (4) and the 1000-fold repetition of each request; last response (status, headers, decoded body with echoed parameters/attribute/selected route) equals the fresh-container response. E3: every pair (triples in thorough) concurrently, all schedules within the bound, same oracle, race detection; supplementary free-running -race pass.",
+   note="Differential; handlers additionally self-check that their own view does not change while they run (nested dispatch)."),
 }
 
 checks = []
@@ -53,8 +77,12 @@ m = {
    "baseline_off_cmd": "cd /repo && go test -mod=mod -vet=off -count=1 ./...",
    "source_commits": [], "add_only": True},
  "engines": [
-   {"name": "E1 enum", "path": "cmd/vcheck, harness/rs, harness/refmodel, harness/h", "serves_properties": sorted(k for k, v in CHECKS.items() if v["engine"] == E1),
+   {"name": "E1 enum", "path": "cmd/vcheck, harness/rs, harness/refmodel, harness/h", "serves_properties": sorted(k for k, v in CHECKS.items() if v["engine"] in (E1, MIX)),
     "kind_free_text": "bounded exhaustive enumeration of configurations x inputs on fresh real containers, sharded over 16 workers; oracle = executable reference model or differential twin"},
+   {"name": "E2 hist", "path": "cmd/vcheck (c11.go, c09.go, c06.go, c19.go)", "serves_properties": sorted(k for k, v in CHECKS.items() if v["engine"] in (E2, MIX)),
+    "kind_free_text": "explicit-state search over operation / request histories: successor = history replayed on a fresh real container; differential oracle against the container built from the abstract state"},
+   {"name": "E3 sched", "path": "engine/vsched (scheduler, sync shims, DFS explorer, vector clocks), cmd/vinstr (go/types instrumenter -> build overlay), cmd/vcheck/e3.go", "serves_properties": sorted(k for k, v in CHECKS.items() if v["engine"] in (E3, MIX)),
+    "kind_free_text": "hand-written CHESS-style stateless model checker: cooperative scheduler over the package's own sync operations (import sync rewritten to shims, yields before channel operations), DFS over choice sequences with iterative preemption bounding, owned Pool hand-out and map order, HB race detection; worker processes per scenario"},
  ],
  "checks": checks,
  "notes": "Every check rebuilds its binary from /repo's current working tree (bin/vcheck). Exit 0 = held on everything explored; exit 1 + VIOLATION line = violation; exit 2 = the check itself is broken. known_findings.json lists recorded and fixed defects.",
